@@ -1,20 +1,26 @@
 """C16 -- the grid object describes exactly the grid the parameters specify.
 
-Count / position / extent / shape clauses decided on the syntax tree of finitedifference.py
-and of the consumers in core.py and time.py:
+Count / position / extent / shape clauses decided on a partial evaluation of
+finitedifference.py (aurelsa.fdpe: the constructor and the helpers are executed on a symbolic
+parameter table, so the rules read the *values* of the attributes) and on the syntax tree of
+the consumers in core.py and time.py:
 
   coordinate-array    each coordinate array is  min_a + arange(N_a) * d_a  (exact polynomial
                       identity; count fixed by an integer, never by a float division)
   arange-count        no np.arange with a non-integer step anywhere in the package
   extent-provenance   a_max is the last element of its own coordinate array, N_a its length
                       (or the parameter), a_min the parameter
-  axis-siblings       the y and z statements are the x statement under x -> y, z
+  axis-siblings       the value of every y / z attribute is the value of the x attribute under
+                      x -> y, z in the names of the parameters it is built from
   meshgrid            3D coordinates from meshgrid(x, y, z, indexing='ij'), unpacked in order
   axis-index-pairing  wherever an axis-lettered fd attribute meets center[i] / a position in a
                       shape tuple, letter and index agree (x0, y1, z2)
-  symmetric-trim      cutoffmask{,2}: per rank branch, the same slice k*mask_len : -k*mask_len
-                      on every axis, no other path
-  spherical-order     cartesian_to_spherical returns (r, theta, phi) and is unpacked so
+  symmetric-trim      cutoffmask{,2} evaluated on an array of each rank: the same cut
+                      k*mask_len : -k*mask_len on every axis, whatever the mode of the object
+  spherical-formulas  both directions of the Cartesian <-> spherical map as closed forms over
+                      function atoms (r, inclination from +z over [0, pi], azimuth; and
+                      r sin cos, r sin sin, r cos with no tolerance or clipping)
+  grid-immutable      no in-place sink reaches an attribute of the shared grid object
 """
 from __future__ import annotations
 
